@@ -580,7 +580,6 @@ def litDecode (b : Octets) : Except Nat Packet :=
   else
     let fl := b.getD 1 0
     if b.length < fl + 6 then .error 0
-    else if b.length = fl + 6 then .error 0
     else .ok (.lit (b.headD 0) ((b.drop 2).take fl) (fromBE ((b.drop (2 + fl)).take 4)) (b.drop (fl + 6)))
 
 /-- the `switch` of `PacketDecode` on a split packet -/
